@@ -1,623 +1,13 @@
-import ParryModel.Proto
-import ParryModel.C08.Model
-import ParryModel.C08.Model2
-import ParryModel.C08.Model3
-/-!
-C08 protocol handler.  One function `hist`: the arguments encode a whole operation history; the output is, after every
-operation, the delta of the complete tree state against the state after the previous operation (see `harness/src/c08.rs`).
-`model` replays the history in the Lean model at `Float` and prints the same deltas; `oracle` rebuilds every intermediate
-*Rust* state from the implementation's deltas and evaluates the invariant on it in exact arithmetic.
--/
+import ParryModel.C08.DriverBase
+import ParryModel.C08.DriverExt
+/-! C08 protocol handlers: `DriverBase` (histories, two-tree and single-tree traversals) and `DriverExt` (round fu3:
+`check_topology`, accessors, `scaled`, early-exit depth-first traversals). -/
 namespace C08
-open Model Model.Qbvh Proto
-
-/-- model variant used for the correspondence: `true` = with the root-split refit fix (see fixes/) -/
-def useFix : Bool := true
-
-inductive POp where
-  | ins (id : Nat) (b : Aabb3 Float)
-  | rem (id : Nat)
-  | refit (m : Float)
-  | rebalance (m : Float)
-  | rebuild (items : List (Nat × Aabb3 Float)) (dil : Float)
-
-def pbox : P (Aabb3 Float) := do let a ← pv3; let b ← pv3; pure ⟨a, b⟩
-
-def pop : P POp := do
-  let t ← tok
-  match t with
-  | "I" => do let id ← pnat; let b ← pbox; pure (.ins id b)
-  | "R" => do let id ← pnat; pure (.rem id)
-  | "F" => do let m ← pf; pure (.refit m)
-  | "B" => do let m ← pf; pure (.rebalance m)
-  | "C" => do
-      let items ← plist (do let id ← pnat; let b ← pbox; pure (id, b))
-      let dil ← pf
-      pure (.rebuild items dil)
-  | _ => failure
-
-def phist : P (List POp) := do let ops ← plist pop; pend; pure ops
-
-/-! ## canonical printing of a state delta -/
-
-def nanBits : UInt64 := 0x7ff8000000000000
-def canon (x : Float) : UInt64 := if x.isNaN then nanBits else if x == 0.0 then 0 else x.toBits
-def hexOfBits (b : UInt64) : String :=
-  let n := b.toNat
-  String.ofList ((List.range 16).map fun i => FloatIO.hexDigit ((n >>> (4 * (15 - i))) % 16))
-def cf (b : UInt64) : String := if b == nanBits then "nan" else hexOfBits b
-
-def boxKey (b : Aabb3 Float) : Array UInt64 :=
-  #[canon b.mins.x, canon b.mins.y, canon b.mins.z, canon b.maxs.x, canon b.maxs.y, canon b.maxs.z]
-def flagBits (nd : Node Float) : Nat :=
-  (if nd.leaf then 1 else 0) + (if nd.changed then 2 else 0) + (if nd.dirty then 4 else 0)
-def topoKey (nd : Node Float) : Array Nat :=
-  #[nd.children[0], nd.children[1], nd.children[2], nd.children[3], nd.parent, nd.plane, flagBits nd]
-def boxesKey (nd : Node Float) : Array UInt64 :=
-  boxKey nd.boxes[0] ++ boxKey nd.boxes[1] ++ boxKey nd.boxes[2] ++ boxKey nd.boxes[3]
-def proxyKey (p : Proxy) : Array Nat := #[p.node, p.lane, p.data]
-
-structure Shadow where
-  topo : Array (Array Nat) := #[]
-  boxes : Array (Array UInt64) := #[]
-  prox : Array (Array Nat) := #[]
-  root : Option (Array UInt64) := none
-
-def joinNat (xs : Array Nat) : String := " ".intercalate (xs.toList.map toString)
-def joinBits (xs : Array UInt64) : String := " ".intercalate (xs.toList.map cf)
-
-/-- print the delta of `q` against the shadow; returns the text and the new shadow -/
-def dumpDelta (q : Q Float) (sh : Shadow) (op : String) (ret : Nat) : String × Shadow := Id.run do
-  let mut out : Array String := #[s!"{op} {ret} n {q.nodes.size} p {q.proxies.size}"]
-  let mut sh := sh
-  let r := boxKey q.rootAabb
-  if sh.root != some r then
-    out := out.push ("R " ++ joinBits r)
-    sh := { sh with root := some r }
-  sh := { sh with topo := sh.topo.extract 0 q.nodes.size, boxes := sh.boxes.extract 0 q.nodes.size,
-                  prox := sh.prox.extract 0 q.proxies.size }
-  let mut xs : Array String := #[]
-  let mut topo := sh.topo
-  let mut boxes := sh.boxes
-  let mut i := 0
-  for nd in q.nodes do
-    let t := topoKey nd
-    let bx := boxesKey nd
-    if topo[i]? != some t then
-      out := out.push s!"N {i} {joinNat t}"
-      topo := if i < topo.size then topo.setIfInBounds i t else topo.push t
-    if boxes[i]? != some bx then
-      xs := xs.push s!"X {i} {joinBits bx}"
-      boxes := if i < boxes.size then boxes.setIfInBounds i bx else boxes.push bx
-    i := i + 1
-  out := out ++ xs
-  let mut prox := sh.prox
-  let mut j := 0
-  for p in q.proxies do
-    let t := proxyKey p
-    if prox[j]? != some t then
-      out := out.push s!"P {j} {joinNat t}"
-      prox := if j < prox.size then prox.setIfInBounds j t else prox.push t
-    j := j + 1
-  out := out.push (" ".intercalate ("D" :: toString q.dirtyNodes.length :: q.dirtyNodes.reverse.map toString))
-  out := out.push (" ".intercalate ("F" :: toString q.freeList.length :: q.freeList.reverse.map toString))
-  out := out.push ";"
-  return (" ".intercalate out.toList, { sh with topo := topo, boxes := boxes, prox := prox })
-
-/-! ## the model leg -/
-
-/-- one operation of the model: new world and the printed return value, `none` = panic / hang -/
-def stepModel (w : World Float) : POp → Option (World Float × String × Nat)
-  | .ins id b =>
-    (preUpdateOrInsert useFix w.q id).map fun q' => (⟨q', fun d => if d = id then b else w.cur d⟩, "I", 0)
-  | .rem id => (remove w.q id).map fun r => (⟨r.1, w.cur⟩, "R", if r.2 then 1 else 0)
-  | .refit m => (refit w.q w.cur m).map fun r => (⟨r.1, w.cur⟩, "F", r.2)
-  | .rebalance m => (rebalance w.q m).map fun q' => (⟨q', w.cur⟩, "B", 0)
-  | .rebuild items dil => (rebuild w.q items dil).map fun q' => (⟨q', curAfter items w.cur⟩, "C", 0)
-
-/-- final world of the model, `none` on panic -/
-def finalModel (ops : List POp) : Option (World Float) :=
-  ops.foldlM (fun w op => (stepModel w op).map (·.1)) World.empty
-
-def runModel (ops : List POp) : String := Id.run do
-  let mut w : World Float := World.empty
-  let mut sh : Shadow := {}
-  let mut out : Array String := #[]
-  for op in ops do
-    match stepModel w op with
-    | none =>
-      out := out.push "PANIC ;"
-      break
-    | some (w', name, ret) =>
-      let (s, sh') := dumpDelta w'.q sh name ret
-      out := out.push s
-      sh := sh'
-      w := w'
-  return " ".intercalate out.toList
-
-/-! ## the oracle leg: rebuild the Rust states from the implementation's deltas -/
-
-def pfloatTok (t : String) : Option Float :=
-  if t = "nan" then some (0.0 / 0.0) else FloatIO.ofHex? t
-
-def natsOf (ts : List String) : Option (List Nat) := ts.mapM String.toNat?
-def floatsOf (ts : List String) : Option (List Float) := ts.mapM pfloatTok
-
-def box6 : List Float → Aabb3 Float
-  | [a, b, c, d, e, f] => ⟨⟨a, b, c⟩, ⟨d, e, f⟩⟩
-  | _ => invalidBox
-
-def growNodes (ns : Array (Node Float)) (n : Nat) : Array (Node Float) :=
-  if ns.size < n then ns ++ Array.replicate (n - ns.size) (emptyNode : Node Float) else ns.extract 0 n
-def growProx (ps : Array Proxy) (n : Nat) : Array Proxy :=
-  if ps.size < n then ps ++ Array.replicate (n - ps.size) invalidProxy else ps.extract 0 n
-
-/-- apply the delta items of one segment (after the header) -/
-partial def applyItems (q : Q Float) : List String → Option (Q Float)
-  | [] => some q
-  | "R" :: rest => do
-    let fs ← floatsOf (rest.take 6)
-    applyItems { q with rootAabb := box6 fs } (rest.drop 6)
-  | "N" :: rest => do
-    let ns ← natsOf (rest.take 8)
-    match ns with
-    | [i, c0, c1, c2, c3, pi, pl, fl] =>
-      let old := (q.nodes[i]?).getD emptyNode
-      let nd : Node Float := { old with children := #v[c0, c1, c2, c3], parent := pi, plane := pl,
-                                        leaf := fl % 2 == 1, changed := (fl / 2) % 2 == 1, dirty := (fl / 4) % 2 == 1 }
-      applyItems { q with nodes := q.nodes.setIfInBounds i nd } (rest.drop 8)
-    | _ => none
-  | "X" :: rest => do
-    let i ← (rest.head?).bind String.toNat?
-    let fs ← floatsOf ((rest.drop 1).take 24)
-    let old := (q.nodes[i]?).getD emptyNode
-    let bx : Vector (Aabb3 Float) 4 :=
-      #v[box6 (fs.take 6), box6 ((fs.drop 6).take 6), box6 ((fs.drop 12).take 6), box6 ((fs.drop 18).take 6)]
-    applyItems { q with nodes := q.nodes.setIfInBounds i { old with boxes := bx } } (rest.drop 25)
-  | "P" :: rest => do
-    let ns ← natsOf (rest.take 4)
-    match ns with
-    | [i, nd, ln, dt] => applyItems { q with proxies := q.proxies.setIfInBounds i ⟨nd, ln, dt⟩ } (rest.drop 4)
-    | _ => none
-  | "D" :: rest => do
-    let k ← (rest.head?).bind String.toNat?
-    let ds ← natsOf ((rest.drop 1).take k)
-    applyItems { q with dirtyNodes := ds.reverse } (rest.drop (k + 1))
-  | "F" :: rest => do
-    let k ← (rest.head?).bind String.toNat?
-    let ds ← natsOf ((rest.drop 1).take k)
-    applyItems { q with freeList := ds.reverse } (rest.drop (k + 1))
-  | _ => none
-
-/-- one segment `op ret n N p M items…` -/
-def applySegment (q : Q Float) (seg : List String) : Option (Q Float × Nat) :=
-  match seg with
-  | _ :: ret :: "n" :: nn :: "p" :: np :: items => do
-    let ret ← ret.toNat?
-    let nn ← nn.toNat?
-    let np ← np.toNat?
-    let q1 : Q Float := { q with nodes := growNodes q.nodes nn, proxies := growProx q.proxies np }
-    let q2 ← applyItems q1 items
-    pure (q2, ret)
-  | _ => none
-
-def splitSegs (toks : List String) : List (List String) :=
-  let rec go (acc : List String) (segs : List (List String)) : List String → List (List String)
-    | [] => (if acc.isEmpty then segs else acc.reverse :: segs).reverse
-    | ";" :: rest => go [] (acc.reverse :: segs) rest
-    | t :: rest => go (t :: acc) segs rest
-  go [] [] toks
-
-def qbox (b : Aabb3 Float) : Aabb3 Rat := ⟨q3 b.mins, q3 b.maxs⟩
-def finiteBox (b : Aabb3 Float) : Bool := finite3 b.mins && finite3 b.maxs
-def nodeToRat (nd : Node Float) : Node Rat :=
-  { boxes := nd.boxes.map qbox, children := nd.children, parent := nd.parent, plane := nd.plane,
-    leaf := nd.leaf, changed := nd.changed, dirty := nd.dirty }
-def toRat (s : Q Float) : Q Rat :=
-  { rootAabb := qbox s.rootAabb, nodes := s.nodes.map nodeToRat, dirtyNodes := s.dirtyNodes,
-    freeList := s.freeList, proxies := s.proxies }
-
-def insertSorted (x : Nat) : List Nat → List Nat
-  | [] => [x]
-  | y :: ys => if x ≤ y then x :: y :: ys else y :: insertSorted x ys
-def sortNat (xs : List Nat) : List Nat := xs.foldr insertSorted []
-
-/-- all checks on one reconstructed Rust state -/
-def judgeState (s : Q Float) (cur : Nat → Aabb3 Float) (live : List Nat) (afterRefit : Bool) : Option String :=
-  if !(s.nodes.all fun nd => nd.boxes.toList.all finiteBox) then some "nonfinite-box"
-  else if !checkRoot s then some "inv-root"
-  else if !checkChildren s then some "inv-child-backpointer"
-  else if !checkParents s then some "inv-parent-backpointer"
-  else if !checkLeafProxy s then some "inv-leaf-proxy"
-  else if !checkProxyLeaf s then some "inv-proxy-leaf"
-  else if !checkDepth s then some "inv-cycle"
-  else if !checkFree s.freeList then some "inv-free-list-duplicate"
-  else if !checkFreeBound s then some "inv-free-list-out-of-range"
-  else if sortNat (collect s (s.nodes.size + 1) 0) != sortNat live then some "reachable-leaves-differ-from-live-set"
-  else if !checkRootParent s then some "root-parent-not-invalid"
-  else if !checkDirty s then some "dirty-flag-not-queued"
-  else if !checkData s then some "proxy-data-differs-from-index"
-  else if afterRefit then
-    if !s.dirtyNodes.isEmpty then some "dirty-left-after-refit"
-    else if !checkBox (toRat s) (fun d => qbox (cur d)) then some "box-not-containing-below-after-refit"
-    else if !checkFresh (toRat s) (fun d => qbox (cur d)) then some "box-not-containing-fresh-after-refit"
-    else none
-  else none
-
-def runOracle (ops : List POp) (out : List String) : String := Id.run do
-  let segs := splitSegs out
-  if segs.length != ops.length then
-    if out.contains "PANIC" then return s!"fail panic op={segs.length - 1}"
-    return "fail unparsable-output segment-count"
-  let mut s : Q Float := Q.empty
-  let mut cur : Nat → Aabb3 Float := fun _ => invalidBox
-  let mut live : List Nat := []
-  let mut k := 0
-  for (op, seg) in ops.zip segs do
-    if seg == ["PANIC"] then return s!"fail panic op={k}"
-    match applySegment s seg with
-    | none => return s!"fail unparsable-output op={k}"
-    | some (s', _) =>
-      s := s'
-      let mut afterRefit := false
-      match op with
-      | .ins id b =>
-        cur := (fun c d => if d = id then b else c d) cur
-        if !live.contains id then live := id :: live
-      | .rem id => live := live.filter (· != id)
-      | .refit _ => afterRefit := true
-      | .rebalance _ => afterRefit := s.dirtyNodes.isEmpty
-      | .rebuild items _ =>
-        live := (items.map (·.1)).eraseDups
-        for (id, b) in items do
-          cur := (fun c d => if d = id then b else c d) cur
-        afterRefit := s.dirtyNodes.isEmpty
-      match judgeState s cur live afterRefit with
-      | some why => return s!"fail {why} op={k}"
-      | none => pure ()
-    k := k + 1
-  return "pass"
-
-def pquery : P (List POp × Aabb3 Float) := do let ops ← plist pop; let b ← pbox; pend; pure (ops, b)
-
-/-- exact overlap of two boxes -/
-def overlapQ (a b : Aabb3 Rat) : Bool :=
-  decide (a.mins.x ≤ b.maxs.x) && decide (b.mins.x ≤ a.maxs.x) &&
-  decide (a.mins.y ≤ b.maxs.y) && decide (b.mins.y ≤ a.maxs.y) &&
-  decide (a.mins.z ≤ b.maxs.z) && decide (b.mins.z ≤ a.maxs.z)
-
-/-- live leaves and their current boxes after a history (from the arguments alone) -/
-def liveAfter (ops : List POp) : List (Nat × Aabb3 Float) :=
-  ops.foldl (fun acc op => match op with
-    | .ins id b => (id, b) :: acc.filter (·.1 != id)
-    | .rem id => acc.filter (·.1 != id)
-    | .rebuild items _ => items.foldl (fun a it => it :: a.filter (·.1 != it.1)) []
-    | _ => acc) []
-
-/-- oracle for `query`: after a history ending with `refit`, `intersect_aabb` must report every live leaf whose
-current box overlaps the query box (brute force over the live leaves), nothing dead, nothing twice -/
-def queryOracle (ops : List POp) (b : Aabb3 Float) (out : List String) : String :=
-  match out with
-  | "PANIC" :: _ => "fail panic"
-  | _ =>
-    match out.mapM String.toNat? with
-    | none => "fail unparsable-output"
-    | some ids =>
-      let live := liveAfter ops
-      let refitLast := match ops.getLast? with
-        | some (.refit _) => true
-        | _ => false
-      if !refitLast then "skip history-does-not-end-with-refit"
-      else if ids.eraseDups.length != ids.length then "fail leaf-reported-twice"
-      else match ids.find? (fun i => !(live.any (·.1 == i))) with
-        | some i => s!"fail dead-leaf-reported {i}"
-        | none =>
-          match live.find? (fun (i, bx) => overlapQ (qbox bx) (qbox b) && !ids.contains i) with
-          | some (i, _) => s!"fail overlapping-leaf-missed {i}"
-          | none => "pass"
-
-/-! ## two-tree traversal (`bvtt`, `bvtto`) and the single-tree depth-first entry points (`dfs`) -/
-
-def pbvtt : P (List POp × List POp × Option (Iso3 Float)) := do
-  let o1 ← plist pop
-  let o2 ← plist pop
-  let hp ← pbool
-  let m ← if hp then (do let m ← piso3; pure (some m)) else pure none
-  pend
-  pure (o1, o2, m)
-
-def parsePairs (toks : List String) : Option (List (Nat × Nat)) :=
-  toks.mapM fun t => match t.splitOn ":" with
-    | [a, b] => do let x ← a.toNat?; let y ← b.toNat?; pure (x, y)
-    | _ => none
-
-/-- exact box of the image of `b` under the affine map `m` (from its eight corners) -/
-def imageBoxQ (m : Iso3 Rat) (b : Aabb3 Rat) : Aabb3 Rat :=
-  let cs : List (V3 Rat) := [b.mins.x, b.maxs.x].flatMap fun x => [b.mins.y, b.maxs.y].flatMap fun y =>
-    [b.mins.z, b.maxs.z].map fun z => m.act ⟨x, y, z⟩
-  match cs with
-  | [] => b
-  | c :: rest => rest.foldl (fun (bb : Aabb3 Rat) p =>
-      ⟨⟨min bb.mins.x p.x, min bb.mins.y p.y, min bb.mins.z p.z⟩, ⟨max bb.maxs.x p.x, max bb.maxs.y p.y, max bb.maxs.z p.z⟩⟩) ⟨c, c⟩
-
-/-- the two boxes overlap by more than `t` on every axis (pairs that merely touch are not demanded) -/
-def overlapBy (t : Rat) (a b : Aabb3 Rat) : Bool :=
-  decide (a.mins.x + t ≤ b.maxs.x) && decide (b.mins.x + t ≤ a.maxs.x) &&
-  decide (a.mins.y + t ≤ b.maxs.y) && decide (b.mins.y + t ≤ a.maxs.y) &&
-  decide (a.mins.z + t ≤ b.maxs.z) && decide (b.mins.z + t ≤ a.maxs.z)
-
-def refitLast (ops : List POp) : Bool :=
-  match ops.getLast? with
-  | some (.refit _) => true
-  | _ => false
-
-/-- oracle for the two-tree traversal: every pair of live leaves whose current boxes (second one posed) overlap must be
-reported; no pair with a dead leaf; no pair twice -/
-def bvttOracle (o1 o2 : List POp) (pos : Option (Iso3 Float)) (out : List String) : String :=
-  match out with
-  | "pairs" :: rest =>
-    match parsePairs rest with
-    | none => "fail unparsable-output"
-    | some ps =>
-      if !(refitLast o1 && refitLast o2) then "skip history-does-not-end-with-refit" else
-      let l1 := liveAfter o1
-      let l2 := liveAfter o2
-      if ps.eraseDups.length != ps.length then "fail pair-reported-twice"
-      else match ps.find? (fun (a, b) => !(l1.any (·.1 == a)) || !(l2.any (·.1 == b))) with
-        | some (a, b) => s!"fail dead-leaf-in-pair {a}:{b}"
-        | none =>
-          let tol : Rat := 1 / 1000000000
-          let b2 := l2.map fun (j, bx) => (j, match pos with
-            | some m => imageBoxQ (qiso3 m) (qbox bx)
-            | none => qbox bx)
-          let missed := l1.findSome? fun (i, bx) =>
-            let B := qbox bx
-            (b2.find? fun (j, C) => overlapBy tol B C && !ps.contains (i, j)).map fun (j, _) => (i, j)
-          match missed with
-          | some (i, j) => s!"fail overlapping-pair-missed {i}:{j}"
-          | none => "pass"
-  | "PANIC" :: _ => "fail panic"
-  | _ => "fail unparsable-output"
-
-def pdfs : P (List POp × Aabb3 Float × V3 Float × V3 Float × Float) := do
-  let ops ← plist pop; let b ← pbox; let o ← pv3; let d ← pv3; let t ← pf; pend; pure (ops, b, o, d, t)
-
-/-- exact slab test: the segment `o + s d`, `0 ≤ s ≤ tmax`, meets the box shrunk by `t` -/
-def rayMeetsBox (o d : V3 Rat) (tmax : Rat) (b : Aabb3 Rat) (t : Rat) : Bool :=
-  let axis (oo dd lo hi : Rat) (acc : Option (Rat × Rat)) : Option (Rat × Rat) :=
-    match acc with
-    | none => none
-    | some (s0, s1) =>
-      if hi - t < lo + t then none   -- thinner than the tolerance: a grazing hit is not demanded
-      else if dd = 0 then (if lo + t ≤ oo ∧ oo ≤ hi - t then some (s0, s1) else none)
-      else
-        let a := (lo + t - oo) / dd
-        let c := (hi - t - oo) / dd
-        let (a, c) := if a ≤ c then (a, c) else (c, a)
-        let s0' := max s0 a
-        let s1' := min s1 c
-        if s0' ≤ s1' then some (s0', s1') else none
-  ((axis o.x d.x b.mins.x b.maxs.x (some (0, tmax))) |> axis o.y d.y b.mins.y b.maxs.y |> axis o.z d.z b.mins.z b.maxs.z).isSome
-
-def idList (t : String) : List Nat := (t.splitOn ",").filterMap String.toNat?
-
-def dfsOracle (ops : List POp) (qb : Aabb3 Float) (o d : V3 Float) (tmax : Float) (out : List String) : String :=
-  if !(refitLast ops) then "skip history-does-not-end-with-refit" else
-  -- `box <ids> ctx <id@depth,…> ray <ids>`; an empty list leaves no token
-  let seg (key : String) : List String := ((out.dropWhile (· != key)).drop 1).takeWhile (fun t => t != "box" && t != "ctx" && t != "ray")
-  if out.head? == some "PANIC" then "fail panic" else
-  let live := liveAfter ops
-  let boxIds := (seg "box").flatMap idList
-  let ctxIds := (seg "ctx").flatMap fun t => (t.splitOn ",").filterMap fun u => (u.splitOn "@").head?.bind String.toNat?
-  let rayIds := (seg "ray").flatMap idList
-  let tol : Rat := 1 / 1000000000
-  let dead (ids : List Nat) := ids.find? fun i => !(live.any (·.1 == i))
-  let dup (ids : List Nat) := ids.eraseDups.length != ids.length
-  if dup boxIds || dup ctxIds || dup rayIds then "fail leaf-reported-twice"
-  else match dead boxIds, dead ctxIds, dead rayIds with
-    | some i, _, _ => s!"fail dead-leaf-reported box {i}"
-    | _, some i, _ => s!"fail dead-leaf-reported ctx {i}"
-    | _, _, some i => s!"fail dead-leaf-reported ray {i}"
-    | none, none, none =>
-      let Q := qbox qb
-      match live.find? (fun (i, bx) => overlapBy tol (qbox bx) Q && !boxIds.contains i) with
-      | some (i, _) => s!"fail overlapping-leaf-missed traverse_depth_first {i}"
-      | none =>
-        match live.find? (fun (i, bx) => overlapBy tol (qbox bx) Q && !ctxIds.contains i) with
-        | some (i, _) => s!"fail overlapping-leaf-missed traverse_depth_first_with_context {i}"
-        | none =>
-          if !FloatIO.isFinite tmax then "pass" else
-          match live.find? (fun (i, bx) => rayMeetsBox (q3 o) (q3 d) (q tmax) (qbox bx) tol && !rayIds.contains i) with
-          | some (i, _) => s!"fail ray-hit-leaf-missed {i}"
-          | none => "pass"
-
-/-! ## every entry point: `bvttall` (two trees), `travall` (depth-first, one tree), `bfirst` (best-first) -/
-
-def pairLt (a b : Nat × Nat) : Bool := a.1 < b.1 || (a.1 == b.1 && a.2 < b.2)
-def sortPairs (ps : List (Nat × Nat)) : List (Nat × Nat) := (ps.toArray.qsort pairLt).toList
-def sortIds (xs : List Nat) : List Nat := (xs.toArray.qsort (· < ·)).toList
-def fmtPairs (ps : List (Nat × Nat)) : String := " ".intercalate (ps.map fun (a, b) => s!"{a}:{b}")
-
-def bvttLabels : List String := ["seq", "stk", "mod", "mods", "par", "par1", "par2", "par8", "parn"]
-def travLabels : List String := ["dfn", "dfs", "ctx", "par", "par1", "par2", "par8", "parn"]
-
-/-- the tokens following `key` up to the next label -/
-def segOf (labels : List String) (out : List String) (key : String) : Option (List String) :=
-  if out.contains key then some (((out.dropWhile (· != key)).drop 1).takeWhile (fun t => !labels.contains t)) else none
-
-/-- brute-force judgement of one visited pair set of a complete two-tree traversal -/
-def bvttJudge (l1 l2 : List (Nat × Aabb3 Float)) (pos : Option (Iso3 Float)) (ps : List (Nat × Nat)) (complete : Bool) : Option String :=
-  if ps.eraseDups.length != ps.length then some "pair-reported-twice"
-  else match ps.find? (fun (a, b) => !(l1.any (·.1 == a)) || !(l2.any (·.1 == b))) with
-    | some (a, b) => some s!"dead-leaf-in-pair {a}:{b}"
-    | none =>
-      if !complete then none else
-      let tol : Rat := 1 / 1000000000
-      let b2 := l2.map fun (j, bx) => (j, match pos with
-        | some m => imageBoxQ (qiso3 m) (qbox bx)
-        | none => qbox bx)
-      let missed := l1.findSome? fun (i, bx) =>
-        let B := qbox bx
-        (b2.find? fun (j, C) => overlapBy tol B C && !ps.contains (i, j)).map fun (j, _) => (i, j)
-      match missed with
-      | some (i, j) => some s!"overlapping-pair-missed {i}:{j}"
-      | none => none
-
-/-- oracle for `bvttall`: every complete entry point (sequential, with_stack, parallel on 1/2/8/all threads, node_parallel)
-must report every overlapping pair of live leaves, no dead leaf, nothing twice; the `modified` variants (which prune on
-the CHANGED flags) must report live pairs only, nothing twice, and nothing the complete traversal does not report -/
-def bvttAllOracle (o1 o2 : List POp) (pos : Option (Iso3 Float)) (out : List String) : String :=
-  if out.head? == some "PANIC" then "fail panic" else
-  if !(refitLast o1 && refitLast o2) && !(o1.isEmpty || o2.isEmpty) then "skip history-does-not-end-with-refit" else
-  let l1 := liveAfter o1
-  let l2 := liveAfter o2
-  let segs := bvttLabels.map fun k => (k, (segOf bvttLabels out k).bind parsePairs)
-  match segs.find? (·.2.isNone) with
-  | some (k, _) => s!"fail unparsable-output {k}"
-  | none =>
-    let seq := ((segs.find? (·.1 == "seq")).bind (·.2)).getD []
-    let bad := segs.findSome? fun (k, ps) =>
-      let ps := ps.getD []
-      let complete := k != "mod" && k != "mods"
-      match bvttJudge l1 l2 pos ps complete with
-      | some why => some s!"fail {k} {why}"
-      | none =>
-        if !complete then (ps.find? (fun p => !seq.contains p)).map fun (a, b) => s!"fail {k} pair-not-in-complete-traversal {a}:{b}"
-        else none
-    bad.getD "pass"
-
-def ptrav : P (List POp × Aabb3 Float × V3 Float) := do
-  let ops ← plist pop; let b ← pbox; let p ← pv3; pend; pure (ops, b, p)
-
-/-- oracle for `travall`: every depth-first entry point with a box predicate reports every live leaf whose current box
-overlaps the query box, no dead leaf, nothing twice -/
-def travAllOracle (ops : List POp) (qb : Aabb3 Float) (out : List String) : String :=
-  if out.head? == some "PANIC" then "fail panic" else
-  if !(refitLast ops) && !ops.isEmpty then "skip history-does-not-end-with-refit" else
-  let live := liveAfter ops
-  let tol : Rat := 1 / 1000000000
-  let Q := qbox qb
-  let bad := travLabels.findSome? fun k =>
-    match (segOf travLabels out k).bind (fun ts => ts.mapM String.toNat?) with
-    | none => some s!"fail unparsable-output {k}"
-    | some ids =>
-      if ids.eraseDups.length != ids.length then some s!"fail {k} leaf-reported-twice"
-      else match ids.find? (fun i => !(live.any (·.1 == i))) with
-        | some i => some s!"fail {k} dead-leaf-reported {i}"
-        | none => (live.find? (fun (i, bx) => overlapBy tol (qbox bx) Q && !ids.contains i)).map fun (i, _) =>
-            s!"fail {k} overlapping-leaf-missed {i}"
-  bad.getD "pass"
-
-/-- exact squared distance from a point to a box -/
-def dist2Q (p : V3 Rat) (b : Aabb3 Rat) : Rat :=
-  let ax (x lo hi : Rat) : Rat := let d := max (max (lo - x) 0) (x - hi); d * d
-  ax p.x b.mins.x b.maxs.x + ax p.y b.mins.y b.maxs.y + ax p.z b.mins.z b.maxs.z
-
-/-- oracle for `bfirst`: the best-first search returns a live leaf whose cost is the minimum over all live leaves of the
-squared distance from the query point to the leaf's current box (`none` iff there is no live leaf) -/
-def bfirstOracle (ops : List POp) (p : V3 Float) (out : List String) : String :=
-  if out.head? == some "PANIC" then "fail panic" else
-  if !(refitLast ops) && !ops.isEmpty then "skip history-does-not-end-with-refit" else
-  let live := liveAfter ops
-  let P := q3 p
-  let best : Option Rat := live.foldl (fun acc (_, bx) =>
-    let d := dist2Q P (qbox bx)
-    match acc with
-    | none => some d
-    | some m => some (min m d)) none
-  let judge (k : String) : Option String :=
-    match segOf ["bf", "bfn"] out k with
-    | some ["none"] => if best.isNone then none else some s!"fail {k} nothing-found-although-leaves-exist"
-    | some [c, i] =>
-      match pfloatTok c, i.toNat?, best with
-      | some cost, some id, some m =>
-        match live.find? (·.1 == id) with
-        | none => some s!"fail {k} dead-leaf-returned {id}"
-        | some (_, bx) =>
-          let d := dist2Q P (qbox bx)
-          let cq := q cost
-          if !(leTol d cq tolDefault && leTol cq d tolDefault) then some s!"fail {k} cost-differs-from-leaf-distance {id}"
-          else if !(leTol d m tolDefault) then some s!"fail {k} not-the-nearest-leaf {id}"
-          else none
-      | _, _, none => some s!"fail {k} leaf-returned-from-empty-tree"
-      | _, _, _ => some s!"fail unparsable-output {k}"
-    | _ => some s!"fail unparsable-output {k}"
-  match judge "bf", judge "bfn" with
-  | some w, _ => w
-  | _, some w => w
-  | none, none => "pass"
+open Proto
 
 def handler (fn : String) : Option Handler :=
-  match fn with
-  | "bvttall" => some {
-      model := fun a => (run pbvtt a).map fun (o1, o2, m) =>
-        match finalModel o1, finalModel o2 with
-        | some w1, some w2 =>
-          match traverseBvtt w1.q w2.q m, traverseModifiedBvtt w1.q w2.q m with
-          | some ps, some ms =>
-            let P := fmtPairs (sortPairs ps)
-            let M := fmtPairs (sortPairs ms)
-            " ".intercalate (bvttLabels.map fun k => s!"{k} {if k == "mod" || k == "mods" then M else P}")
-          | _, _ => "PANIC"
-        | _, _ => "PANIC"
-      oracle := fun a o => match run pbvtt a with
-        | some (o1, o2, m) => bvttAllOracle o1 o2 m o
-        | none => "skip bad-args" }
-  | "travall" => some {
-      model := fun a => (run ptrav a).map fun (ops, b, _) =>
-        match (finalModel ops).bind fun w => intersectAabb w.q b with
-        | some ids =>
-          let I := " ".intercalate ((sortIds ids).map toString)
-          " ".intercalate (travLabels.map fun k => s!"{k} {I}")
-        | none => "PANIC"
-      oracle := fun a o => match run ptrav a with
-        | some (ops, b, _) => travAllOracle ops b o
-        | none => "skip bad-args" }
-  | "bfirst" => some {
-      model := fun _ => some "-"
-      oracle := fun a o => match run ptrav a with
-        | some (ops, _, p) => bfirstOracle ops p o
-        | none => "skip bad-args" }
-  | "bvtt" => some {
-      model := fun a => (run pbvtt a).map fun (o1, o2, m) =>
-        match finalModel o1, finalModel o2 with
-        | some w1, some w2 =>
-          match traverseBvtt w1.q w2.q m with
-          | some ps => " ".intercalate ("pairs" :: ps.map fun (a, b) => s!"{a}:{b}")
-          | none => "PANIC"
-        | _, _ => "PANIC"
-      oracle := fun a o => match run pbvtt a with
-        | some (o1, o2, m) => bvttOracle o1 o2 m o
-        | none => "skip bad-args" }
-  | "bvtto" => some {
-      model := fun _ => some "-"
-      oracle := fun a o => match run pbvtt a with
-        | some (o1, o2, m) => bvttOracle o1 o2 m o
-        | none => "skip bad-args" }
-  | "dfs" => some {
-      model := fun _ => some "-"
-      oracle := fun a o => match run pdfs a with
-        | some (ops, b, oo, d, t) => dfsOracle ops b oo d t o
-        | none => "skip bad-args" }
-  | "query" => some {
-      model := fun a => (run pquery a).map fun (ops, b) =>
-        match (finalModel ops).bind fun w => intersectAabb w.q b with
-        | some ids => " ".intercalate (ids.map toString)
-        | none => "PANIC"
-      oracle := fun a o => match run pquery a with
-        | some (ops, b) => queryOracle ops b o
-        | none => "skip bad-args" }
-  | "histo" => some {
-      -- same histories as `hist`, judged by the invariant oracle on the dumped Rust states only (no model comparison)
-      model := fun _ => some "-"
-      oracle := fun a o => match run phist a with
-        | some ops => runOracle ops o
-        | none => "skip bad-args" }
-  | "hist" => some {
-      model := fun a => (run phist a).map runModel
-      oracle := fun a o => match run phist a with
-        | some ops => runOracle ops o
-        | none => "skip bad-args" }
-  | _ => none
+  match handlerBase fn with
+  | some h => some h
+  | none => handlerExt fn
 
 end C08
